@@ -836,7 +836,7 @@ class BinaryOperatorDefinition:
     @classmethod
     def power(cls) -> 'BinaryOperatorDefinition':
         t = DataType.NUMBER
-        return cls('**', t, t, t, infix=True, commutative=False, associative=True)
+        return cls('**', t, t, t, infix=True, commutative=False)
 
     @classmethod
     def implication(cls) -> 'BinaryOperatorDefinition':
